@@ -133,6 +133,18 @@ class TermBuilder:
             if t == ("env",) or t == ("deref", ("env",)):
                 idx = int(e[1]) if e[1].isdigit() else e[1]
                 return ("upvar", self.fn.upvars.get(idx, idx))
+            if e[1] == "0" and t[0] == "dc" and t[2] == "Some" and isinstance(t[1], tuple) and t[1] and t[1][0] == "call" and len(t[1][2]) >= 1:
+                # the payload of `s.first()` is `&s[0]`, of `s.get(i)` is `&s[i]` / `&s[range]`: name it like the indexing expression
+                cal = t[1][1]
+                X = t[1][2][0]
+                base = X[1] if X[0] == "ref" else ("deref", X)
+                if cal.endswith("core::slice::<impl [T]>::first") and len(t[1][2]) == 1:
+                    return ("ref", ("index", base, ("const", 0)))
+                if cal.endswith("core::slice::<impl [T]>::get") and len(t[1][2]) == 2:
+                    I = t[1][2][1]
+                    if I[0] == "agg" and str(I[1]).startswith("std::ops::Range"):
+                        return ("call", "core::slice::index::<impl std::ops::Index<I> for [T]>::index", (X, I))
+                    return ("ref", ("index", base, I))
             if t[0] == "agg" and (t[1] in ("tuple",) or str(t[1]).startswith("closure:")) and e[1].isdigit() and int(e[1]) < len(t[3]):
                 return t[3][int(e[1])]  # (a closure environment read back in a body folded into its creator: the captured operand)
             return ("field", t, e[1])
